@@ -269,6 +269,11 @@ class Entity(Block):
 
                 if _entity_instantiation_handler is not None:
                     _entity_instantiation_handler(info)
+            except BaseException:
+                # do not keep the partially elaborated instance,
+                # future compilations must run the architecture again
+                info._discard_instantiation()
+                raise
             finally:
                 assert len(_block_stack) == 1
                 _block_stack = prev_block_stack
